@@ -37,13 +37,17 @@ Inductive sop :=
 | SNop (k : Z)                            (* lseek, (f/l)stat, read, pread, close, fchmod: names and contents unaffected *)
 | SRename (a b : path)                    (* rename(a, b): atomic replace *)
 | SUnlink (p : path)
-| SStdout (d : bytes).                    (* write to descriptor 1 *)
+| SStdout (d : bytes)                     (* write to descriptor 1 *)
+| SOpen (p : path) (i : ino) (creat trunc : bool).
+    (* open(p, O_WRONLY [|O_CREAT] [|O_TRUNC]) of an existing name p itself - NOT a new sibling: an existing regular file
+       (followed through one symbolic link) is cut to length 0 when trunc; an absent name is created empty (inode i) when creat *)
 
 (* kinds of the no-effect calls (used only to compare with the traced system calls) *)
 Definition K_CHMOD := 3.      Definition K_CLOSE_TMP := 4.   Definition K_SEEK_IN := 10.  Definition K_CLOSE_IN := 11.
 Definition K_STAT_DEST := 12. Definition K_FSTAT_IN := 13.   Definition K_READ_IN := 14.  Definition K_SEEK_TMP := 15.
 Definition K_PREAD_TMP := 16. Definition K_CHECK := 21.      Definition K_READ_RESULT := 22. Definition K_CLOSE_STDOUT := 23.
 Definition K_PREAD_IN := 24.  Definition K_OPEN_DEST := 25.  Definition K_SEEK_DEST := 26.   Definition K_READ_DEST := 27.
+Definition K_CLOSE_DEST := 29.
 
 Definition zpad (n : Z) (l : bytes) : bytes := l ++ repeat 0 (Z.to_nat (n - zlen l)).
 Definition pwrite_bytes (old : bytes) (off : Z) (d : bytes) : bytes :=
@@ -62,6 +66,18 @@ Definition sstep (s : fsys) (o : sop) : fsys :=
                    match dirent s a with Some e => set_dir (set_dir s b (Some e)) a None | None => s end
   | SUnlink p => set_dir s p None
   | SStdout d => mkFsys (dirent s) (idata s) (sout s ++ d)
+  | SOpen p i creat trunc =>
+      match resolve s p with
+      | Some j => if trunc then set_data s j [] else s
+      | None =>
+          if creat then
+            match dirent s p with
+            | None => set_data (set_dir s p (Some (EFile i))) i []
+            | Some (ELink q) => match dirent s q with None => set_data (set_dir s q (Some (EFile i))) i [] | Some _ => s end
+            | Some _ => s
+            end
+          else s
+      end
   end.
 Definition srun (ops : list sop) (s : fsys) : fsys := fold_left sstep ops s.
 
